@@ -79,7 +79,17 @@ func drawCase(t *rapid.T) Case {
 		}
 		if trs[s] == nil || trs[s].Gone {
 			np := rapid.IntRange(2, min(3, nid)).Draw(t, "parts")
-			perm := rapid.Permutation(seq(nid)).Draw(t, "peers")[:np]
+			// the Persister interface does not tie the number of network peers to the
+			// number of participants (a caller may list only the remote peers, or an
+			// additional hub): mostly one per participant, sometimes one less or more
+			npeers := np + []int{0, 0, 0, 0, -1, 1}[rapid.IntRange(0, 5).Draw(t, "peerdelta")]
+			if npeers < 1 {
+				npeers = 1
+			}
+			if npeers > nid {
+				npeers = nid
+			}
+			perm := rapid.Permutation(seq(nid)).Draw(t, "peers")[:npeers]
 			sp := &chanops.ChanSpec{
 				N: np, Own: rapid.IntRange(0, np-1).Draw(t, "own"), Peers: perm,
 				Nonce:  uint64(s + maxSlots*gens[s]),
@@ -497,7 +507,10 @@ func run(c Case, o *h.Outcome) *h.Failure {
 			}
 			sp := *stp.Chan
 			peers := make([]map[wallet.BackendID]wire.Address, len(sp.Peers))
-			okPeers := len(sp.Peers) == sp.N
+			okPeers := len(sp.Peers) >= 1
+			if len(sp.Peers) != sp.N {
+				o.Class("create:peers!=participants")
+			}
 			for j, pi := range sp.Peers {
 				if pi < 0 || pi >= len(w.idents) {
 					okPeers = false
